@@ -86,7 +86,7 @@ ASSUMPTIONS = [
     "State is judged only as TRACKED / not TRACKED (the statement does not name the other states); task residue is "
     "judged only after a disconnect (R3), not while connected.",
     "Naming of the lost-call mechanism uses a passive look at the tracked-user entry at call time (worker task already "
-    "done); verdicts never depend on it.",
+    "done and the request was put on that entry's queue); verdicts never depend on it.",
     "SimServer answers AddUser per the script and sends nothing else about u1/u2. Outside the 'xfer' family the TRANSFER "
     "reason is set through the same public call the transfer manager uses (no transfers in those runs).",
     "Family 'xfer': reason TRANSFER(u) <=> the harness' record holds a transfer for u that it added and neither aborted "
@@ -101,10 +101,10 @@ ASSUMPTIONS = [
 MIN_OBS = {
     'quick': {'sequences': 2150, 'calls_issued': 7000, 'add_user_frames': 3200, 'remove_user_frames': 1000,
               'retries_judged': 350, 'quiescence_checks': 2500, 'disconnects': 450, 'exhaustive_gap_cases': 585, 'send_failure_sweep_cases': 144,
-              'xfer_sequences': 600, 'transfer_ops': 1200, 'transfer_reason_transitions': 900, 'relogins_with_unfinished_transfer': 150},
+              'xfer_sequences': 590, 'transfer_ops': 1200, 'transfer_reason_transitions': 900, 'relogins_with_unfinished_transfer': 150},
     'thorough': {'sequences': 60000, 'calls_issued': 250000, 'add_user_frames': 100000, 'remove_user_frames': 30000,
                  'retries_judged': 15000, 'quiescence_checks': 60000, 'disconnects': 12000, 'exhaustive_gap_cases': 585, 'send_failure_sweep_cases': 144,
-                 'xfer_sequences': 20000, 'transfer_ops': 40000, 'transfer_reason_transitions': 30000, 'relogins_with_unfinished_transfer': 5000},
+                 'xfer_sequences': 19900, 'transfer_ops': 40000, 'transfer_reason_transitions': 30000, 'relogins_with_unfinished_transfer': 5000},
 }
 SHARD_TIMEOUT = {'quick': 600, 'thorough': 5400}
 N_RANDOM = {'quick': 5000, 'thorough': 250000}
@@ -135,6 +135,9 @@ WHAT_FAILS = {
     'transfer-reason-outlives-removed-transfer':
         'TransferManager.remove() of an unfinished transfer: the user is in neither the finished nor the unfinished set '
         'of the next management cycle, the TRANSFER reason is never withdrawn (no RemoveUser, flags keep TRANSFER)',
+    'transfer-reason-lost-across-relogin':
+        'a user with an unfinished transfer is not tracked again (no AddUser, flags lack TRANSFER) in the session that '
+        'follows a disconnect + login, although the reason remains',
     'residue-after-disconnect': 'tracking entry / worker / retry task / flags left after the server connection closed',
 }
 
@@ -484,7 +487,7 @@ def judge(run: dict, choice: dict) -> tuple[list, dict]:
             presession[(e, c['u'])].add(c['i'])
         calls[(e, c['u'])].append((c['t'], c['op'], c['f'], c['i']))
     finishing = {(c['epoch'], c['u']) for c in run['calls']
-                 if c['phase'] == 'open' and c['op'] == 't' and c['worker_done']}
+                 if c['phase'] == 'open' and c['op'] == 't' and c.get('queued_on_finished_worker')}
     via = {c['i']: c.get('via') for c in run['calls']}          # how a TRANSFER reason change came about (family xfer)
     relogin_reason = {(c['epoch'], c['u']) for c in run['calls'] if c.get('via') == 'relogin'}
     removed_unfinished = {(c['epoch'], c['u']) for c in run['calls'] if c.get('via') == 'remove'}
@@ -670,11 +673,34 @@ def judge(run: dict, choice: dict) -> tuple[list, dict]:
             kept_reason.setdefault((e, u), []).append(sig)
         else:
             out.append((sig, u, e, detail))
+    # ... and of another: a TRANSFER reason that outlives a disconnect is not asserted again for the new session
+    lost_relogin = set()
+    for sig, u, e, detail in out:
+        if (e, u) not in relogin_reason:
+            continue
+        ids = {c['i'] for c in run['calls'] if c['epoch'] == e and c['u'] == u and c.get('via') == 'relogin'}
+        if sig == 'missing-track-request' and detail['first_missing'][2] in ids:
+            lost_relogin.add((e, u))
+        if sig == 'lost-call:flags-differ' and 'TRANSFER' in detail['model_flags'] and \
+                'TRANSFER' not in detail['reported_flags'] and not detail.get('after_disconnect'):
+            lost_relogin.add((e, u))
+    if lost_relogin:
+        rest, cons = [], {}
+        for sig, u, e, detail in out:
+            if (e, u) in lost_relogin:
+                cons.setdefault((e, u), []).append(sig)
+            else:
+                rest.append((sig, u, e, detail))
+        out = rest
+        for (e, u), sigs in cons.items():
+            out.append(('transfer-reason-lost-across-relogin', u, e, {
+                'consequences': sorted(set(sigs)), 'session_began_at': run['logins'].get(e),
+                'unfinished_transfer_remains': True}))
     for (e, u), sigs in kept_reason.items():
         ops = [c for c in run['calls'] if c['epoch'] == e and c['u'] == u and c.get('via') == 'remove']
         out.append(('transfer-reason-outlives-removed-transfer', u, e, {'consequences': sorted(set(sigs)), 'removals': ops}))
     for (e, u), sigs in collapsed.items():
-        hits = [c for c in run['calls'] if c['epoch'] == e and c['u'] == u and c['worker_done'] and c['op'] == 't']
+        hits = [c for c in run['calls'] if c['epoch'] == e and c['u'] == u and c.get('queued_on_finished_worker')]
         out.append(('lost-call:track-while-worker-finishing', u, e, {'consequences': sorted(set(sigs)), 'lost_calls': hits}))
     stats['finishing_hits'] = len(finishing)
     stats['finishing_without_effect'] = len([k for k in finishing if k not in collapsed])
@@ -950,6 +976,7 @@ def run_case(params: dict) -> dict:
                     'entry': ent is not None,
                     'worker_done': bool(ent is not None and ent.task is not None and ent.task.done()),
                 })
+                rec = run['calls'][-1]
                 try:
                     if s['op'] == 't':
                         await client.users.track_user(user, flag)
@@ -957,6 +984,8 @@ def run_case(params: dict) -> dict:
                         await client.users.untrack_user(user, flag)
                 except Exception as exc:  # noqa  (reported as a violation below, never swallowed)
                     run['raised'].append([i, type(exc).__name__, repr(exc)[:200]])
+                # (naming only) the request went to an entry whose worker had already returned: nobody will read it
+                rec['queued_on_finished_worker'] = bool(rec['worker_done'] and tm._tracked_users.get(user) is ent)
                 return True
             while not await h.call(inner()):
                 await ensure_session(last_wait)
